@@ -544,6 +544,18 @@ func c02BufferedHandoff(p *Prog, l *Ledger, f *ssa.Function, mc *ssa.MakeChan, k
 					if !after {
 						return true
 					}
+					if call, ok := ins.(*ssa.Call); ok {
+						c := p.CallOf(call)
+						if c.Static != nil && p.InModule(c.Static) {
+							for _, a := range call.Call.Args {
+								if ch, ok := a.Type().Underlying().(*types.Chan); ok && types.Identical(ch.Elem(), lis) {
+									if p.drainHelper(c.Static) == "" {
+										drained = true
+									}
+								}
+							}
+						}
+					}
 					if s2, ok := ins.(*ssa.Select); ok && !s2.Blocking {
 						for _, st := range s2.States {
 							if st.Dir == types.RecvOnly && sameValueOrLoad(st.Chan, s.States[0].Chan) || st.Dir == types.RecvOnly && types.Identical(st.Chan.Type(), s.States[0].Chan.Type()) {
@@ -908,4 +920,76 @@ func c02Token(p *Prog, l *Ledger) {
 		okS := len(vals) == 1 && strip(vals[0], false) == ssa.Value(fp)
 		l.Check(okS, "O7", p.Key(c), p.FuncPos(c), "stores the given release function into the token", "the acquired token does not keep the release function it was given")
 	}
+}
+
+// drainHelper: g takes a receive-only / bidirectional chan core.Listener parameter and, on every returning path,
+// performs a non-blocking receive (select with default) from that parameter while holding an exclusive mutex; its result
+// is nil or the received listener. Returns "" when g has that shape.
+func (p *Prog) drainHelper(g *ssa.Function) string {
+	lis := p.coreNamed("Listener")
+	if g == nil || len(g.Blocks) == 0 {
+		return "not a module function"
+	}
+	var chP *ssa.Parameter
+	for _, q := range g.Params {
+		if c, ok := q.Type().Underlying().(*types.Chan); ok && types.Identical(c.Elem(), lis) {
+			chP = q
+		}
+	}
+	if chP == nil {
+		return "takes no hand-off channel"
+	}
+	locks := p.Locksets()
+	why := ""
+	n := 0
+	EnumPaths(g, 10000, func(pa *Path) bool {
+		if !pa.IsReturn() {
+			return true
+		}
+		n++
+		var sel *ssa.Select
+		pa.Each(func(step int, ins ssa.Instruction) bool {
+			if s2, ok := ins.(*ssa.Select); ok && !s2.Blocking {
+				for _, st := range s2.States {
+					if st.Dir == types.RecvOnly && strip(st.Chan, false) == ssa.Value(chP) {
+						sel = s2
+					}
+				}
+			}
+			return true
+		})
+		if sel == nil {
+			why = "a path does not poll the hand-off channel: " + joinWitness(p.DescribePath(pa))
+			return false
+		}
+		excl := false
+		for _, ex := range locks.Held(sel) {
+			if ex {
+				excl = true
+			}
+		}
+		if !excl {
+			why = "the hand-off channel is polled without holding the delivery mutex"
+			return false
+		}
+		rv := pa.ReturnValues()
+		for _, r := range rv {
+			r = strip(r, false)
+			if isNilConst(r) {
+				continue
+			}
+			if ex, ok := r.(*ssa.Extract); ok && ex.Tuple == ssa.Value(sel) {
+				continue
+			}
+			if types.Identical(r.Type(), lis) {
+				why = "returns a listener that was not received from the hand-off channel"
+				return false
+			}
+		}
+		return true
+	})
+	if n == 0 && why == "" {
+		why = "no returning path"
+	}
+	return why
 }
